@@ -42,7 +42,8 @@ fn pattern(r: &mut Rng) -> String {
                          "local e1 = { [261723845] = 1, [261723846] = 2 }", "local e2 = { [16777216] = 1, [16777217] = 2 }", "local e3 = { [0.1] = 1, [0.100000001] = 2 }",
                          "local e4 = { [1700000001] = \"a\", [1700000002] = \"b\", [1e10] = 1, [10000000001] = 2 }", "local e5 = { [0x10] = 1, [16] = 2, [0xff] = 3, [255.5] = 4 }"])).to_string(),
         14 => (*r.pick(&["if (x) then print(1) end", "while (x) do print(1) end", "repeat print(1) until (x)", "if x then print(1) elseif (y) then print(2) end",
-                         "if (x) or (y) then print(1) end", "if (x)(y) then print(1) end", "while ((x)) do print(1) end"])).to_string(),
+                         "if (x) or (y) then print(1) end", "if (x)(y) then print(1) end", "while ((x)) do print(1) end",
+                         "if (f()) then print(1) end", "while (t:m()) do print(1) end", "repeat print(1) until (...)", "if (not f()) then print(1) elseif (f()) then print(2) end"])).to_string(),
         15 => format!("print({} {} {})", r.pick(&["x", "{}", "{ 1 }", "(x)", "({})"]), r.pick(&["==", "~=", "<", "<=", ">", ">=", "+", ".."]), r.pick(&["{}", "y", "{ a = 1 }", "({})", "#t"])),
         16 => (*r.pick(&["print(type(x == \"number\"))", "print(type(x) == \"number\")", "if type(x == 'string') then print(1) end", "print(type(x ~= \"number\"))",
                          "print(type(x == y))", "print(typeof(x == \"number\"))", "print(type(x == \"a\", 2))", "print(type((x == \"a\")))", "print(t.type(x == \"a\"))", "print(type \"a\")"])).to_string(),
